@@ -652,7 +652,8 @@ func (g *fgen) block(b *ssa.BasicBlock) {
 			if phi.Comment == "rangeindex" && len(phi.Edges) == 2 {
 				// hidden index of a `range` loop: starts at -1, stepped by +1 while < len
 				if c, ok := phi.Edges[0].(*ssa.Const); ok && c.Value != nil && c.Value.ExactString() == "-1" {
-					g.fact("true", fmt.Sprintf("(>= %s (- 1))", v.t))
+					// ... and every completed iteration passed `index+1 < limit <= MaxInt`
+					g.fact("true", fmt.Sprintf("(and (>= %s (- 1)) (< %s 9223372036854775807))", v.t, v.t))
 				}
 			}
 		}
@@ -929,6 +930,74 @@ func (g *fgen) alloc(x *ssa.Alloc, st *state) {
 		g.locs[x] = l
 	}
 	g.store(st, l, g.zero(et))
+	if !allocEscapes(x) {
+		// a local whose address never leaves this function: callees cannot write it
+		var keys []string
+		g.leafKeysOf(l, l.path, l.typ, &keys)
+		g.stackLocals = append(g.stackLocals, stackLocal{ref: r, keys: keys})
+	}
+}
+
+type stackLocal struct {
+	ref  string
+	keys []string
+}
+
+// allocEscapes: is the address of the local used for anything but direct loads, stores
+// and field/element addressing?
+func allocEscapes(a *ssa.Alloc) bool {
+	var esc func(v ssa.Value, depth int) bool
+	esc = func(v ssa.Value, depth int) bool {
+		refs := v.Referrers()
+		if refs == nil {
+			return true
+		}
+		for _, in := range *refs {
+			switch u := in.(type) {
+			case *ssa.DebugRef:
+			case *ssa.UnOp:
+				if u.Op != token.MUL {
+					return true
+				}
+			case *ssa.Store:
+				if u.Val == v {
+					return true
+				}
+			case *ssa.FieldAddr:
+				if depth > 6 || esc(u, depth+1) {
+					return true
+				}
+			case *ssa.IndexAddr:
+				if u.X != v || depth > 6 || esc(u, depth+1) {
+					return true
+				}
+			default:
+				return true
+			}
+		}
+		return false
+	}
+	return esc(a, 0)
+}
+
+// restoreStackLocals: after a call's frame has been applied, the cells of non-escaping
+// locals still hold what they held before the call.
+func (g *fgen) restoreStackLocals(before, st *state) {
+	for _, sl := range g.stackLocals {
+		for _, k := range sl.keys {
+			if strings.HasPrefix(k, "G_") {
+				continue
+			}
+			old := g.read(before, k)
+			cur := g.read(st, k)
+			if old == cur {
+				continue
+			}
+			n := g.fresh("H_"+k, g.heapSort[k])
+			g.fact("true", fmt.Sprintf("(= %s (store %s %s (select %s %s)))", n, cur, sl.ref, old, sl.ref))
+			st.heap[k] = n
+		}
+	}
 }
 
 func (g *fgen) zeroElemLeaves(st *state, l *loc, path []int, t types.Type, arr string) {
@@ -1231,7 +1300,7 @@ func (g *fgen) convert(x *ssa.Convert, st *state) {
 		if g.sortOf(to) == "(_ FloatingPoint 8 24)" {
 			eb, sb = 8, 24
 		}
-		g.define(x, fmt.Sprintf("((_ to_fp %d %d) RNE (to_real %s))", eb, sb, v.t))
+		g.define(x, intToFloatTerm(fi, v.t, eb, sb))
 	case isFloatSort(v.sort) && tok:
 		// float -> int: value is implementation-defined when out of range; model in-range exactly
 		r := g.defineUnknown(x, st)
